@@ -98,6 +98,23 @@ def anchor_universe() -> dict:
         ("int", 64, "I64MIN", "-9223372036854775808"), ("int", 64, "I64MAX", "9223372036854775807"), ("uint", 64, "U64MAX", "18446744073709551615"),
         ("int", 33, "I33MIN", "-4294967296"), ("uint", 33, "U33MAX", "8589934591"), ("int", 8, "I8MIN", "-128"), ("uint", 17, "U17", "131071"), ("int", 2, "I2", "-2"),
     ]
+    # arrays of every byte-multiple element width (standard widths are bulk-copied on little-endian C builds, 24/40/48/56 bits
+    # must not be) and of every float width, fixed and variable, byte-aligned and -- after the bool -- unaligned
+    def arrs(prefix, widths):
+        out = []
+        for i, (k, b) in enumerate(widths):
+            el = prim(k, b, "truncated" if k == "uint" and i % 2 else "saturated")
+            out.append(fld(f"{prefix}{i}", {"t": "farr", "elem": el, "n": 2 + i % 2} if i % 2 == 0 else {"t": "varr", "elem": el, "cap": 2 + i % 3, "incl": True}))
+        return out
+
+    w1 = [("uint", 24), ("int", 40), ("uint", 48), ("int", 56), ("uint", 16), ("int", 32), ("int", 64), ("uint", 8), ("float", 32), ("float", 64), ("float", 16), ("int", 24), ("uint", 40), ("int", 48), ("uint", 56)]
+    w2 = [("int", 24), ("uint", 24), ("uint", 40), ("int", 16), ("int", 48), ("uint", 56), ("uint", 8), ("float", 32), ("int", 8), ("float", 16), ("uint", 64), ("float", 64)]
+    types.append(td("ArrBytes", arrs("p", w1) + [fld("odd", {"t": "bool"})] + arrs("q", w2), extent_bits=8192))
+    # fixed port-ID 0 is a valid port-ID (message and service)
+    types.append(dict(td("PortZero", [fld("x", prim("uint", 8))]), port_id=0))
+    types.append({"ns": ["anchor"], "name": "SvcZero", "major": 1, "minor": 0, "port_id": 0, "kind": "service", "deprecated": False, "doc": [],
+                  "body": {"request": {"union": False, "sealed": True, "extent_extra": 1, "attrs": [fld("q", prim("uint", 7))]},
+                           "response": {"union": True, "sealed": True, "extent_extra": 1, "attrs": [fld("a", prim("int", 9)), fld("b", {"t": "bool"})]}}})
     cattrs = [{"k": "const", "type": prim(k, b), "name": n, "value": v} for k, b, n, v in consts]
     cattrs += [{"k": "const", "type": {"t": "bool"}, "name": "BT", "value": "true"}, {"k": "const", "type": {"t": "bool"}, "name": "BF", "value": "false"}, fld("v", prim("uint", 8))]
     types.append(td("Consts", cattrs))
